@@ -371,7 +371,7 @@ REGISTRY = {
                 "as even as the counts allow, every node's view must say what the others serve and equal Lmd.NodeView.check; then 14 (thorough 30) generated data/Stats/sorted/limited/AuthUser/Backends requests and 6 fixed ones go to random nodes "
                 "and are compared with Lmd.distData / distStats and with the single-instance specification",
         "correspondence": "Lmd.redistribute / quotas / handOut vs Nodes.redistribute; Lmd.NodeView.check vs Nodes.checkNodeAvailability (views after convergence); Lmd.distData / distStats vs getDistributedResponse / mergeDistributedResponse (answers of running clusters)",
-        "assumptions": ["the 10 s node loop and the 3 s heartbeat are driven by the harness (checks run when the harness says so, heartbeat 2 s); TLS between nodes, pass-through tables in cluster mode and more than 3 running nodes are not exercised (see DESIGN.md)"],
+        "assumptions": ["the 10 s node loop and the 3 s heartbeat are driven by the harness (checks run when the harness says so, heartbeat 2 s); TLS between nodes and more than 4 running nodes are not exercised (see DESIGN.md)"],
     },
     "C15": {
         "lean_modules": ["C15"],
